@@ -43,6 +43,10 @@ P = {
   "Static decision for all keys, digests and nonces: on the only path leaving sign's retry loop (loop state forgotten at the head; exit analysed from an arbitrary iteration) r = x(kG) mod n != 0, s0 = (r*d + e)/k != 0, and after the loop s = low-s form of s0 and v = (([x(kG) >= n] << 1) | parity(y(kG))) xor [s0 > (n-1)/2] for all eight flag valuations (so v in [0,3]); errors are exactly short digest / entropy failure / sampler failure. PrivateKey.Sign decided for nil options, a bare crypto.Hash, and *ECDSAOptions with hash unset/SHA-224/256/384/512, Encoding 0,1,2 and every other value, SelfVerify symbolic: bytes are returned exactly when the digest length matches, signing succeeded, the optional self-check passed and the encoding is defined; they are the matching builder applied to sign's (r,s,v), independent of SelfVerify; no bytes accompany an error; verify writes none of its operands.",
   "Trusted: C09 (k in [1,n)), C05, C06, C02, C07, C12 (builders/parsers agree). That the result verifies under the signer's key and that the emitted id recovers the signer are algebraic consequences of the decided formulas; derived, not computed.",
   "abstract interpretation over go/ssa (loop widening + exit-path analysis) against lower-layer specifications; terms and accept sets compared as normal forms"),
+ "C09": ("other",
+  "Structural decision (necessary conditions of the property, for every key, digest, reader behaviour and candidate stream): def-use in sign (the caller's reader reaches only mitigateDebianAndSony; the sampler reads only its result; it is keyed by the signing key and hashToScalar(digest)); mitigateDebianAndSony abstractly interpreted with an unknown reader: sentinel -> RFC 6979 generator whose initial K,V equal RFC 6979 3.2 b-g as HMAC-SHA-256 terms over int2octets(x)||bits2octets(h1); otherwise exactly one checked io.ReadFull of 32 bytes (nil reader replaced; no nil read reachable), error -> (nil, err), and a TupleHashXOF128 that absorbed Bytes(d), the 32 bytes, Bytes(e) in order exactly once; sampleRandomScalar (8 attempts unrolled, 766 paths): every accepted value is fn(E) of a block whose read error was nil and which was tested E < n and != 0 on that path (reject, never reduce), all other returns are errors with a nil scalar; drbgRFC6979.Read = RFC 6979 3.2 h (first read V=HMAC_K(V); after a rejected candidate K=HMAC_K(V||00), V=HMAC_K(V) first), 32-byte requests only; repo-specific errcheck over secec, bitcoin, h2c with five enumerated justified discards.",
+  "NOT decided: that TupleHashXOF128 / HMAC-SHA-256 outputs change when an input changes and are unbiased (cryptographic assumption), hence 'two messages never share r' is decided only up to that assumption. Trusted: io.ReadFull contract, C02, go/ssa, the checker.",
+  "abstract interpretation over go/ssa with hash/HMAC/XOF transcript terms; def-use and error-discipline scans over SSA"),
  "C10": ("other",
   "Static decision for all keys and inputs: ECDH(k,B) = Bytes(x(k.scalar * B.point)) with the identity the only error; accept sets of NewPrivateKey (32 bytes, < n, non-zero), NewPrivateKeyFromScalar (non-zero), NewPublicKey (valid SEC 1 encoding per C06 of a non-identity point), NewPublicKeyFromPoint (non-identity) as propositional normal forms; an accepted key stores fresh copies (allocation-site origin) of the scalar / point, the public point d*G and 04||x||y of the stored point; no key object accompanies an error; PrivateKey / PublicKey objects are allocated and written only inside the two unexported constructors (who-writes over every package of the module); accessors return fresh copies, do not write the key, and CompressedBytes = (2 + parity) || x of the stored point.",
   "Trusted: C04 (ScalarMult exact; symmetry ECDH(a,B) = ECDH(b,A) = x(ab*G) is its consequence, recorded as derived), C05, C06, C02; go/ssa; the checker.",
@@ -57,7 +61,7 @@ P = {
   "abstract interpretation over go/ssa against lower-layer specifications; accept-set formulas compared as propositional normal forms"),
 }
 
-CLAIMED = ["C01", "C02", "C03", "C04", "C05", "C06", "C07", "C08", "C10", "C11", "C16", "C19"]
+CLAIMED = ["C01", "C02", "C03", "C04", "C05", "C06", "C07", "C08", "C09", "C10", "C11", "C16", "C19"]
 
 REASON_PENDING = "check under construction in this session (see DESIGN.md section 2); not yet claimed"
 
